@@ -118,6 +118,14 @@ func c20txs() []authTypes.StdTx {
 			txs = append(txs, authTypes.NewStdTx(m.val.(sdk.Msg), fee, ss, memo, ent))
 		}
 	}
+	// every message once more under one and the same envelope (fee, memo, entropy, signature), so that
+	// two messages differing in a single field differ in nothing else
+	{
+		ss := authTypes.StdSignature{Signature: bytes.Repeat([]byte{9}, 64), PublicKey: chain.Pub(2)}
+		for _, m := range c20msgs() {
+			txs = append(txs, authTypes.NewStdTx(m.val.(sdk.Msg), fees[1], ss, "same envelope", 4242))
+		}
+	}
 	// the same transaction with memos that differ only in surrounding white space or case, and in
 	// how a fee is written: different content, so different sign bytes
 	if ms := c20msgs(); len(ms) > 0 {
@@ -251,6 +259,25 @@ func (c *c20) roundTrips(it catItem) (encodings map[string][]byte) {
 		// the decoded value must be the same logical value under the other codecs too
 		j, _ := cdc.MarshalJSON(dst)
 		canon = append(canon, j)
+		// ... judged with a codec the round trip did not go through: what came back from JSON must have
+		// the binary encoding of what went in (and vice versa), so a loss both directions of one codec
+		// agree on cannot hide
+		other := cdc.MarshalBinaryBare
+		otherName := "amino-bare"
+		if p.name != "json" {
+			other, otherName = cdc.MarshalJSON, "json"
+		}
+		o1, e1 := other(src)
+		o2, e2 := other(dst)
+		if e1 == nil && e2 == nil {
+			eq := bytes.Equal(o1, o2)
+			if otherName == "json" {
+				eq = normJSON(o1) == normJSON(o2)
+			}
+			if !eq {
+				c.fail("C20|roundtrip|value-changed-as-seen-by-"+otherName+"|"+p.name+"|"+typeClass(it.name), fmt.Sprintf("%s: after a %s round trip the value's %s encoding is %q, it was %q", it.name, p.name, otherName, o2, o1), it.name)
+			}
+		}
 	}
 	for i := 1; i < len(canon); i++ {
 		if normJSON(canon[0]) != normJSON(canon[i]) {
